@@ -31,7 +31,10 @@ ASSUMPTIONS = [
 ANCHOR_KEYWORDS = ["select", "table", "where", "group", "insert", "update", "delete", "create", "union", "values"]
 # reserved words of single dialects, taken from the vendors' lists (not from cutplace's tables)
 DIALECT_ANCHOR_KEYWORDS = {
-    "PL/SQL": ["order", "overlaps"],
+    # (Oracle Database SQL Language Reference, "Oracle SQL Reserved Words": the words a column cannot be called)
+    "PL/SQL": ["order", "overlaps", "access", "audit", "column", "file", "increment", "initial", "integer", "maxextents", "mlslabel", "noaudit", "number",
+               "offline", "online", "pctfree", "rowid", "rownum", "rows", "session", "smallint", "successful", "sysdate", "trigger", "uid", "user",
+               "validate", "varchar", "varchar2", "whenever", "level", "index", "date", "comment", "size", "mode"],
     "DB2": ["first", "last", "next", "old", "period", "prior", "organization", "currval", "sysdate", "systimestamp", "order"],
     "Transact-SQL": ["order"],
     "ANSI": ["order"],
